@@ -258,10 +258,11 @@ def _layout_jobs(tier):
     for st, T in tokrun.STRUCTS.items():
         gaps = tokrun.struct_gaps(T)
         nref = tokrun.struct_nrefs(T)
+        blocks = [[['block', g]] for g in gaps[:-1]]
         if quick:
-            gapsets = [[]] + [[g] for g in gaps]
+            gapsets = [[]] + [[g] for g in gaps] + blocks
         else:
-            gapsets = [[]] + [[g] for g in gaps] + [list(p) for p in itertools.combinations(gaps, 2)]
+            gapsets = [[]] + [[g] for g in gaps] + blocks + [list(p) for p in itertools.combinations(gaps, 2)] + [[['block', g], h] for g in gaps[:-1] for h in gaps]
         width = 3 if quick else 4
         windows = [list(range(i, i + width)) for i in range(1, max(nref, 1) + 1, width)] if nref else [[]]
         for w in windows:
@@ -285,7 +286,7 @@ def C15(tier):
                                             'quoted names with spaces / comment markers, source and comment strings, a ballot naming only withdrawn candidates)'],
                 require_reach=['accepted', 'layout-compared'],
                 bounds=dict(structures=list(tokrun.STRUCTS), comment_tokens=tokrun.COMMENT_TOKENS, multipliers='1..10^9 symbolic', symbolic_reference_window=3 if tier != 'thorough' else 4,
-                            gaps='end of every line, one at a time' + ('; all pairs' if tier == 'thorough' else '')))
+                            gaps='end of every line, one at a time; a five-line comment block (ballot-like, nested comment, quoted text) after every line' + ('; all pairs' if tier == 'thorough' else '')))
 
 
 # ---------------------------------------------------------------------------------------------------
@@ -433,12 +434,17 @@ def C19(tier):
         for N in ((4,) if quick else (3, 4, 5)):
             jobs.append(dict(kind='misc', mode='interrupt', name='interrupt %s %s n=3 seats=2 len<=2 N=%d' % (rule, sorted(opts.items()), N), rule=rule,
                              opts=dict(opts), n=3, seats=2, maxlen=2, N=N, budget_s=300 if quick else 1500, weight=3 if slow else 1))
+    # validation against the real thing: a genuine KeyboardInterrupt at every package line event of one concrete count per rule
+    texts = ['3 2\n2 1 2 0\n1 2 3 0\n1 3 1 0\n1 2 0\n0\n"A"\n"B"\n"C"\n"T"\n', '4 2\n3 1 2 0\n2 2 1 3 0\n2 3 4 0\n1 4 0\n1 3 0\n0\n"A"\n"B"\n"C"\n"D"\n"T"\n']
+    for rule, opts in RULE_CFGS + [('meek', dict(grid.RAT, omega=2)), ('warren', dict(grid.RAT, omega=2))]:
+        jobs.append(dict(kind='misc', mode='sweep', name='real interrupts %s %s' % (rule, sorted(opts.items())), rule=rule, opts=dict(opts), texts=texts,
+                         stride=1, budget_s=600, weight=4))
     return dict(jobs=jobs, level_text='bounded symbolic execution of the real count under a line tracer: on every feasible path (all ballot multisets with the stated total) the '
                 'interrupted renderings are evaluated at the first line event of every distinct record state; a syntactic check of the count path (no try/finally/with, '
                 'no handler that could swallow KeyboardInterrupt) justifies that raising at an event leaves exactly the state of that event; failing states are replayed '
                 'with a real KeyboardInterrupt raised from sys.settrace on the pristine code',
                 assumptions=COUNT_ASSUME + ['ballot total fixed per job (the report header prints it with %d); renderers only append the interrupt log and set intr_logged (undone after each virtual interruption)'],
-                require_reach=['record-states', 'before-header'],
+                require_reach=['record-states', 'before-header', 'real-interrupts'],
                 bounds=dict(rules=[r for r, _ in RULE_CFGS], candidates=3, ranking_length=2, ballot_total=[4] if quick else [3, 4, 5], seats=2,
                             interruption_points='every line event of package code inside Election.count(), grouped by record state'))
 
